@@ -29,18 +29,18 @@ typedef boost::property_tree::ptree ptree;
 static const char *COARS[4] = {"aggregation", "smoothed_aggregation", "smoothed_aggr_emin", "ruge_stuben"};
 static const char *RELAX[9] = {"damped_jacobi", "spai0", "spai1", "gauss_seidel", "ilu0", "iluk", "ilup", "ilut", "chebyshev"};
 
-// Probe estimate of ||P||_2 (lower estimate): amplification of three seeded random vectors and of the final residual direction.
-// The rounding noise that P amplifies is unstructured, so the random-probe gain (~ ||P||_F / sqrt(n)) is the relevant scale.
+// Probe estimate of ||P||_2 (a lower estimate): the gain ||P v|| / ||v|| over (i) three seeded random vectors (the rounding noise that P amplifies is
+// unstructured: ~ ||P||_F / sqrt(n)), (ii) the final residual direction, (iii) eight steps of the power iteration v <- P v / ||P v|| started from a
+// random vector -- Krylov methods excite exactly the dominant directions of P, and a diverging smoother shows up there within a few steps.
 template <class ApplyP> static double probe_precond_norm(const Csr<double> &A, ApplyP applyP, const std::vector<double> &f, const std::vector<double> &x) {
-    Rng r(0x5eed ^ A.n); double g = 0; std::vector<double> z(A.n);
+    Rng r(0x5eed ^ A.n); double g = 0; std::vector<double> z(A.n), v;
+    auto gain = [&](const std::vector<double> &w) -> double { double nv = vf::norm2(w); if (!(nv > 0) || !std::isfinite(nv)) return 0.0; std::fill(z.begin(), z.end(), 0.0); applyP(w, z); double nz = vf::norm2(z); return std::isfinite(nz) ? nz / nv : std::numeric_limits<double>::infinity(); };
     for (int k = 0; k < 4; ++k) {
-        std::vector<double> v;
         if (k < 3) v = vf::random_vector(A.n, r); else { auto y = vf::spmv_ld(A, x); v.resize(A.n); for (size_t i = 0; i < A.n; ++i) v[i] = (double)((long double)f[i] - y[i]); }
-        double nv = vf::norm2(v); if (!(nv > 0) || !std::isfinite(nv)) continue;
-        std::fill(z.begin(), z.end(), 0.0); applyP(v, z); double nz = vf::norm2(z);
-        if (!std::isfinite(nz)) return std::numeric_limits<double>::infinity();
-        g = std::max(g, nz / nv);
+        double gk = gain(v); if (!std::isfinite(gk)) return gk; g = std::max(g, gk);
     }
+    v = vf::random_vector(A.n, r);
+    for (int k = 0; k < 8; ++k) { double gk = gain(v); if (!std::isfinite(gk)) return gk; g = std::max(g, gk); double nz = vf::norm2(z); if (!(nz > 0)) break; for (size_t i = 0; i < A.n; ++i) v[i] = z[i] / nz; }
     return g;
 }
 
@@ -92,7 +92,8 @@ static Outcome monitored_solve(Case &c, const Csr<double> &A, const Cond &K, con
         Cond Kc = K; Kc.normP = probe_precond_norm(A, applyP, f, x);
         if (vf::opt_int("debug", 0)) fprintf(stderr, "%s: iters=%zu res=%g normA=%g normAinv=%g normP~%g\n", vf::cfg_name(cs.cfg).c_str(), o.iters, o.res, K.normA, K.normAinv, Kc.normP);
         if (Kc.normP > 10 * K.normAinv) vf::obs_sum("calls_with_preconditioner_norm_above_10x_inverse_norm");
-        vf::check_truthful(c, cs, A, f, x0, x, o.iters, o.res, Kc, applyP, tag, &o.tru);
+        vf::Rerun<double> rerun = [&](const std::vector<double> &f2, std::vector<double> &x2) { try { Solver S2(A.tie(), p); S2(f2, x2); return true; } catch (const std::exception &) { return false; } };
+        vf::check_truthful(c, cs, A, f, x0, x, o.iters, o.res, Kc, applyP, tag, &o.tru, rerun);
         vf::obs_sum("solves"); vf::obs_add("cells_covered", std::string(p.get<std::string>("precond.coarsening.type")) + "+" + p.get<std::string>("precond.relax.type") + "+" + vf::cfg_name(cs.cfg));
     } catch (const std::exception &e) { o.threw = true; o.what = e.what(); vf::obs_sum("exceptions_not_counted_as_violation"); }
     return o;
@@ -267,8 +268,12 @@ static void sub_richardson() {
             vf::obs_max("max_rho_I_minus_wBA", rho); vf::obs_min("min_rho_I_minus_wBA", rho);
             if (!c.check(std::isfinite(rho) && rho < 1.0, "richardson-rate:cycle-not-contracting", "rho(I - w B A) >= 1 on a small model problem: the stationary iteration cannot converge", J().n("rho", rho).n("damping", w))) {}
             else if (rho > 1e-6) {
-                size_t k1 = (size_t)std::ceil(std::log(1e-3) / std::log(rho)), k2 = (size_t)std::ceil(std::log(1e-7) / std::log(rho));
-                k1 = std::max<size_t>(2, std::min<size_t>(k1, 40)); k2 = std::max<size_t>(k1 + 3, std::min<size_t>(k2, 80));
+                // window [k1, k2]: residual reduced by about 1e-3 at k1 and never below 1e-9 at k2 (rounding floor of the double iterates ~ u kappa);
+                // a cycle that contracts faster than 1e-3 per step leaves no such window (counted, the recurrence clause above still holds it)
+                long kcap = (long)std::floor(std::log(1e-9) / std::log(rho));
+                if (kcap < 3) { vf::obs_sum("rate_clause_skipped_contraction_below_1e-3"); if (levels >= 2) c.nontrivial(); continue; }
+                size_t k2 = (size_t)std::min<long>(80, kcap), k1 = (size_t)std::ceil(std::log(1e-3) / std::log(rho));
+                k1 = std::max<size_t>(1, std::min<size_t>(k1, std::min<size_t>(40, k2 - 2)));
                 std::vector<double> xs = vf::random_vector(n, r), f2(n), z0(n, 0.0); { auto y = vf::spmv_ld(A, xs); for (size_t i = 0; i < n; ++i) f2[i] = (double)y[i]; }
                 vf::LV f2v = vf::to_lv(f2), xm = vf::LV::Zero(n); long double m1 = 0, m2 = 0;
                 for (size_t k = 1; k <= k2; ++k) { vf::LV res = f2v - Ad * xm; xm = xm + (long double)w * (Bd * res); if (k == k1) { vf::LV rr = f2v - Ad * xm; m1 = rr.norm(); } if (k == k2) { vf::LV rr = f2v - Ad * xm; m2 = rr.norm(); } }
